@@ -45,7 +45,14 @@ def run(tape, scenario):
     sims, terms = wl.build(env, ec, specs)
     moving = tape.pick("c27/movingTime", [0.05, 1.0, 5.0])
     travel = moving * [0.2, 0.6, 0.95, 1.3][tape.draw("c27/travel", 4)]
-    plant = dict(x=0.0, last=0.0, stuck=None, t_stuck=None)
+    # the monotonic clock is the time since boot: the run may start anywhere, e.g. shortly
+    # before 2**32 ms (49.7 days) or 2**31 ms of uptime
+    uptime = tape.pick("c27/uptime", [0.0, 0.0, 0.0, 4294967.296, 2147483.648, 1.0e9, 86400.0])
+    if uptime:
+        uptime -= moving * tape.pick("c27/before-the-wrap", [0.5, 2, 6, 20, 60])
+        world.now = max(0.0, uptime)
+        world.count("c27/started-at-high-uptime")
+    plant = dict(x=0.0, last=world.now, stuck=None, t_stuck=None)
     stuck_kind = tape.draw("c27/stuck", 6)      # 0-2 healthy
     violations = []
     history = []
